@@ -123,9 +123,25 @@ def chunkPath (flat : Bool) (key : String) (c : Nat × Nat × Nat × Nat × Nat 
   if flat then [key, coordStr x0 x1 ++ "_" ++ coordStr y0 y1 ++ "_" ++ coordStr z0 z1]
   else [key, coordStr x0 x1, coordStr y0 y1, coordStr z0 z1]
 
-def storeChunk (cfg : Cfg) (fs : FS) (key : String) (c : Nat × Nat × Nat × Nat × Nat × Nat) (buf : Bytes)
+/-- the scale key is part of the chunk's relative name: `_chunk_path` (after fix F38) refuses a key that makes the
+    name absolute (empty key: `"/0-1_..."`) or contains a `..` component, like the file methods do -/
+def slashComps : List Char → List Char → List (List Char)
+  | cur, [] => [cur.reverse]
+  | cur, '/' :: t => cur.reverse :: slashComps [] t
+  | cur, ch :: t => slashComps (ch :: cur) t
+
+def chunkRefused (key : String) : Bool :=
+  let cs := key.toList
+  cs.isEmpty || cs.head? == some '/' || (slashComps [] cs).contains ['.', '.']
+
+/-- `store_chunk` once the name is accepted -/
+def storeChunkIn (cfg : Cfg) (fs : FS) (key : String) (c : Nat × Nat × Nat × Nat × Nat × Nat) (buf : Bytes)
     (mime : String) (overwrite : Bool) : Except Err FS :=
   writeAt fs (targetOf cfg mime (chunkPath cfg.flat key c)) (contentOf cfg mime buf) overwrite
+
+def storeChunk (cfg : Cfg) (fs : FS) (key : String) (c : Nat × Nat × Nat × Nat × Nat × Nat) (buf : Bytes)
+    (mime : String) (overwrite : Bool) : Except Err FS :=
+  if chunkRefused key then .error .refused else storeChunkIn cfg fs key c buf mime overwrite
 
 /-- one probe of `fetch_chunk`: plain, else `.gz`; `none` = nothing there -/
 def probe (fs : FS) (p : Path) : Option (Except Err Read) :=
@@ -137,7 +153,7 @@ def probe (fs : FS) (p : Path) : Option (Except Err Read) :=
     | some (.plain b) => some (if b.isEmpty then .ok (.bytes []) else .error .access)
     | none => none
 
-def fetchChunk (fs : FS) (key : String) (c : Nat × Nat × Nat × Nat × Nat × Nat) : Except Err Read :=
+def fetchChunkIn (fs : FS) (key : String) (c : Nat × Nat × Nat × Nat × Nat × Nat) : Except Err Read :=
   -- flat first, then sub-directories; the last match wins
   match probe fs (chunkPath false key c) with
   | some r => r
@@ -145,5 +161,8 @@ def fetchChunk (fs : FS) (key : String) (c : Nat × Nat × Nat × Nat × Nat × 
     match probe fs (chunkPath true key c) with
     | some r => r
     | none => .error .access
+
+def fetchChunk (fs : FS) (key : String) (c : Nat × Nat × Nat × Nat × Nat × Nat) : Except Err Read :=
+  if chunkRefused key then .error .refused else fetchChunkIn fs key c
 
 end NgVerif.FileStore
